@@ -1863,13 +1863,15 @@ func c05NilPending() {
 	store := &vStore{m: map[string][]byte{}}
 	ri, err := build(store)
 	vassert(err == nil, "graph compiles")
-	_, e1 := call(ri, vchoose("firstStream", 2) == 1, WithCheckPointID("cp"))
+	id := []string{"cp", ""}[vchoose("id", 2)] // the empty string is a checkpoint id like any other
+	_, e1 := call(ri, vchoose("firstStream", 2) == 1, WithCheckPointID(id))
 	_, ok := ExtractInterruptInfo(e1)
 	vassert(ok, "nil pending: the run is interrupted before the consumer")
 	if !ok {
 		return
 	}
-	out, e2 := call(ri, vchoose("secondStream", 2) == 1, WithCheckPointID("cp"))
+	a6(store.sets == 1, "nil pending: a checkpoint is written under the supplied id (the empty id included) when the interrupt is returned")
+	out, e2 := call(ri, vchoose("secondStream", 2) == 1, WithCheckPointID(id))
 	a5(e2 == nil, "nil pending: the resumed run completes")
 	a5(out == want, "nil pending: the consumer receives what it receives uninterrupted (nil stays nil)")
 }
